@@ -22,7 +22,9 @@ use crate::{
     FoundAny, JobResult,
 };
 
-pub const BINARY: &str = "/verif/.target/e2e/debug/trampoline";
+pub fn binary() -> String {
+    format!("{}/e2e/debug/trampoline", crate::target_dir())
+}
 
 #[derive(Clone, Debug, PartialEq)]
 pub struct Config {
@@ -201,14 +203,14 @@ impl Proc {
             let (n, s) = (Arc::clone(&node), Arc::clone(&stop));
             std::thread::spawn(move || serve(listener, n, s));
         }
-        let mut cmd = Command::new(BINARY);
+        let mut cmd = Command::new(binary());
         cmd.current_dir(&dir).stdin(Stdio::piped()).stdout(Stdio::piped()).stderr(Stdio::piped());
         cmd.env_remove("RUST_LOG");
         if log_trace {
             cmd.env("CLN_PLUGIN_LOG", "trace");
         }
         cmd.env("AWS_EC2_METADATA_DISABLED", "true");
-        let mut child = cmd.spawn().map_err(|e| format!("spawn {}: {}", BINARY, e))?;
+        let mut child = cmd.spawn().map_err(|e| format!("spawn {}: {}", binary(), e))?;
         let stdout = child.stdout.take().unwrap();
         let stderr = child.stderr.take().unwrap();
         let (tx, rx) = mpsc::channel();
@@ -704,8 +706,8 @@ pub fn run(thorough: bool, threads: usize, name: &'static str) -> JobResult {
         exhaustive: true,
         ..Default::default()
     };
-    if !Path::new(BINARY).exists() {
-        result.error = Some(format!("{} not built", BINARY));
+    if !Path::new(&binary()).exists() {
+        result.error = Some(format!("{} not built", binary()));
         return result;
     }
     let cfgs = configs(thorough);
